@@ -971,6 +971,8 @@ def _msg(kind, k):
     """the k-th distinct message of a kind, as (command, payload)"""
     if kind == "ping":
         return (b"ping", ((0x9E3779B97F4A7C15 * (k + 1)) % 2 ** 64).to_bytes(8, "little"))
+    if kind == "ping-zero":             # a legal ping whose 8-byte nonce is 0 / 2^64-1 / has zero low or high bytes
+        return (b"ping", [0, 2 ** 64 - 1, 1 << 56, 0xFF, 1 << 32, 0x0100][k % 6].to_bytes(8, "little"))
     if kind == "ping-short":
         return (b"ping", (1000 + k).to_bytes(4, "little"))
     if kind == "version":
@@ -1165,6 +1167,12 @@ def gen_cases(rng, tier):
     for i, ks in enumerate(lsw):
         out.append(case("line-granularity-%d-peers" % len(ks), "linesweep", _progs([list(k) for k in ks]), 400 if T else 60, i,
                         timeout=300.0))
+    # --- boundary ping nonces (0, 2^64-1, zero low / high bytes): answered with a pong carrying the same nonce ---
+    for i in range(6 if T else 2):
+        ks = [["ping-zero"] * 3, ["ping-zero", "inv", "ping-zero"]]
+        pr = [[_msg(kd, 6 * i + 3 * t + j) for j, kd in enumerate(kk)] for t, kk in enumerate(ks)]
+        out.append(case("ping-boundary-nonces", "sweep", pr, 10 ** 6 if T else 30, i, False))
+        out.append(case("ping-boundary-nonces", "run", pr, [t for _ in range(12) for t in (0, 1)], EAGER))
     # --- odd but legal command names (empty name = 12 NUL bytes, a full 12-character name, words the code itself uses):
     #     unknown commands like any other - queued once, in order, and the peer's later ping still answered ---
     for i in range(9 if T else 3):
